@@ -37,6 +37,7 @@ struct BudgetState {
     const char *soft_kind = "";
     char soft_site[256] = {0};
     uint64_t claimed_values = 0, claimed_objects = 0;
+    uint64_t samples = 0, samples_in_values = 0; // header/parameter phase, second half of the read budget: every 64th read is attributed by its call stack
 };
 
 // probes supplied by the executor for the object being loaded on this thread (nullptr: no explanation attempted)
